@@ -52,3 +52,52 @@ def _setup(b, case):
     return {'self': tbl, '_n': names[0]}
 c.setup(_setup)
 c.ensures('nothing-is-defined-afterwards', 'len(self._dict) == 0 and self.get_symbol(_n).undefined and not (_n in self)')
+
+
+# ---- Context over the real tables: scopes. A routine's parameter / local is a variable inside the routine whatever the
+#      globals hold under that name (also a routine); it is gone after the routine; clear() forgets every routine name, so
+#      a name that was a routine in an earlier text is an ordinary name in the next
+CX = 'bardolph/parser/context.py'
+c = contract(CX, 'scopes', serves=['C06', 'C16', 'C03'], name='lemma:routine N defined; another routine declares N as parameter', src='''
+def scopes(ctx, name, other, routine):
+    ctx.add_routine(routine)                  # define N ...        (routine.name is `name`)
+    was_routine = ctx.has_routine(name)
+    ctx.enter_routine()                       # define g with N ...
+    ctx.add_variable(name)
+    inside = (ctx.has_symbol_typed(name, SymbolType.VAR), ctx.get_symbol(name).symbol_type)
+    ctx.exit_routine()
+    after = (ctx.has_routine(name), ctx.has_symbol_typed(name, SymbolType.VAR), ctx.has_symbol(other))
+    return (was_routine, inside, after)
+''')
+def _setup(b, case):
+    ctx = b.new(('bardolph.parser.context', 'Context'))
+    name = b.sym('atom', 'name')
+    other = b.sym('atom', 'other')
+    b.assume(other.t != name.t) if isinstance(other, SymVal) else None
+    routine = b.new(('bardolph.controller.routine', 'Routine'), name)
+    return {'ctx': ctx, 'name': name, 'other': other, 'routine': routine}
+c.setup(_setup)
+c.ensures('a-parameter-is-a-variable-inside-its-routine', 'result[0] is True and result[1][0] is True and result[1][1] is SymbolType.VAR')
+c.ensures('and-the-routine-again-afterwards', 'result[2][0] is True and result[2][1] is False and result[2][2] is False')
+
+c = contract(CX, 'forgotten', serves=['C06', 'C17'], name='lemma:a routine and a variable defined; clear(); the names are free', src='''
+def forgotten(ctx, rname, vname, mname, routine):
+    ctx.add_routine(routine)
+    ctx.add_variable(vname)
+    ctx.add_global(mname, SymbolType.MACRO, 5)
+    before = (ctx.has_routine(rname), ctx.has_symbol(vname), ctx.get_macro(mname).undefined)
+    ctx.clear()
+    return (before, ctx.has_routine(rname), ctx.has_symbol(rname), ctx.has_symbol(vname), ctx.get_macro(mname).undefined,
+            ctx.get_routine(rname).undefined)
+''')
+def _setup(b, case):
+    ctx = b.new(('bardolph.parser.context', 'Context'))
+    names = [b.sym('atom', n) for n in ('rname', 'vname', 'mname')]
+    for i in range(3):
+        for j in range(i + 1, 3):
+            b.assume(names[i].t != names[j].t) if isinstance(names[i], SymVal) else None
+    routine = b.new(('bardolph.controller.routine', 'Routine'), names[0])
+    return {'ctx': ctx, 'rname': names[0], 'vname': names[1], 'mname': names[2], 'routine': routine}
+c.setup(_setup)
+c.ensures('known-before', 'result[0][0] is True and result[0][1] is True and result[0][2] is False')
+c.ensures('nothing-known-after-clear', 'result[1] is False and result[2] is False and result[3] is False and result[4] is True and result[5] is True')
